@@ -61,6 +61,10 @@ func (m *MessageCopyFromGenerator) GenerateFields(g *j.Group) {
 	}
 
 	for _, f := range m.Fields {
+		// The placeholder of a message without fields exists in the schema only, there is nothing to copy to
+		if f.IsPlaceholder {
+			continue
+		}
 		g.Add(NewFieldCopyFromGenerator(f, m.i).Generate())
 	}
 }
@@ -298,6 +302,14 @@ func (f *FieldCopyFromGenerator) genObjectListOrMap() *j.Statement {
 			g.Var().Id("t").Id(f.i.WithType(f.GoElemType))
 
 			g.If(j.Id("!v.Null && !v.Unknown")).BlockFunc(func(g *j.Group) {
+				// A message without fields has nothing to copy: a non-null element is just allocated
+				if m.IsEmpty {
+					if f.IsNullable {
+						g.Id("t").Op("=&").Id(f.i.WithType(f.GoElemTypeIndirect)).Values()
+					}
+					return
+				}
+
 				// tf := v
 				g.Id("tf").Op(":=").Id("v")
 
